@@ -1967,6 +1967,10 @@ class Array(DaskMethodsMixin):
                 value = broadcast_to(value, self[key].shape)
 
             y = where(key, value, self)
+            if y.chunks != self.chunks and not np.isnan(self.shape).any():
+                # the mask (or value) is chunked differently: assignment
+                # must not change the chunks of the array
+                y = y.rechunk(self.chunks)
             # FIXME does any backend allow mixed ops vs. numpy?
             # If yes, is it wise to let them change the meta?
             self._meta = y._meta
